@@ -76,12 +76,17 @@ type recStatus struct {
 	mu    sync.Mutex
 	sts   []map[string]interface{}
 	addrs []string
+	id    func(string) string // nil = idOfAddr
 }
 
 func (r *recStatus) SetStatus(rcptTo string, err error) {
 	r.mu.Lock()
 	defer r.mu.Unlock()
-	r.sts = append(r.sts, map[string]interface{}{"k": idOfAddr(rcptTo), "v": class(err)})
+	id := idOfAddr
+	if r.id != nil {
+		id = r.id
+	}
+	r.sts = append(r.sts, map[string]interface{}{"k": id(rcptTo), "v": class(err)})
 	r.addrs = append(r.addrs, rcptTo)
 }
 
